@@ -326,6 +326,14 @@ func main() {
 		p := p
 		vlib.SeqsParallel(valTokens, valLen, workers, func(_ int, v string) { checkPair(p, v, true) })
 	}
+	// the two properties with values of their own, and two ordinary ones, written with upper-case letters: the
+	// sanitiser folds the name, so every place that looks at the name has to agree on the folded form
+	mixedProps := []string{"Font-Family", "FONT-FAMILY", "font-Family", "Background-Image", "BACKGROUND-IMAGE", "background-imagE", "Display", "MARGIN"}
+	for _, p := range mixedProps {
+		p := p
+		vlib.SeqsParallel(valTokens, valLen-1, workers, func(_ int, v string) { checkPair(p, v, true) })
+	}
+	run.Cov["mixed_case_property_spellings"] = len(mixedProps)
 	// shaped families: url(Q x Q) for background-image, "x", y for font-family
 	inner := []string{"a", "/", ":", "javascript", "http", "\"", "'", ")", "(", ";", "}", "\\", " ", "\n", "<", ",", "\r", "\f"}
 	innerLen := run.Pick(3, 4)
@@ -338,8 +346,37 @@ func main() {
 		checkPair("font-family", "\""+x+"\"", true)
 		checkPair("font-family", "\""+x+"\", serif", true)
 		checkPair("font-family", "serif,\""+x+"\"", true)
+		if len(x) <= innerLen-1 { // (tokens of one byte: a cheap bound for "one token fewer")
+			for _, q := range []string{"", "\"", "'"} {
+				checkPair("Background-Image", "url("+q+x+q+")", true)
+				checkPair("BACKGROUND-IMAGE", "url("+q+x+q+")", true)
+			}
+			checkPair("Font-Family", "\""+x+"\"", true)
+			checkPair("FONT-FAMILY", "\""+x+"\", serif", true)
+		}
 	})
 	shaped = vlib.SeqCount(len(inner), innerLen) * 9
+	// URLs that a stricter parser than a browser's refuses to parse (a port that is not a number, an unterminated
+	// IPv6 literal, a character that is not allowed in a host name, a broken percent escape, user info with one):
+	// the browser still resolves them with the scheme they begin with, so "could not be parsed" must not read as
+	// "has no scheme". Every scheme spelling × every such tail × the url() shapes.
+	{
+		schemes := []string{"javascript", "JaVaScRiPt", "vbscript", "data", "ftp", "file", "blob", "x", "http", "https", "mailto", "HTTPS"}
+		tails := []string{"//a:b", "//a:b/x", "//h:p0rt/", "//[", "//[::1", "//[::1/x", "//{", "//a{b}/", "//a|b", "//a^b", "/%", "/%zz", "/%a", "/x%zzy", "//%zz", "//h/%", "//u%zz@h", "//a@b:c", "//a:b@c:d", "//h:1:2", "//:x", "//h:-1", "a%zz", "%zz", "?%zz", "#%zz"}
+		n := 0
+		for _, sc := range schemes {
+			for _, t := range tails {
+				u := sc + ":" + t
+				for _, q := range []string{"", "\"", "'"} {
+					checkPair("background-image", "url("+q+u+q+")", true)
+					checkPair("background-image", "url("+q+"a"+q+"),url("+q+u+q+")", true)
+					checkPair("background-image", "url("+q+u+q+"), url("+q+"a"+q+")", true)
+					n += 3
+				}
+			}
+		}
+		run.Cov["urls_a_strict_parser_rejects"] = n
+	}
 	// quoted names and URLs that begin with 1..10 multi-byte characters (byte offsets and rune counts drift apart)
 	// followed by every inner string ≤ 2: a length compared in the wrong unit stops checking early
 	multi := 0
